@@ -199,6 +199,20 @@ public:
         return false;
     }
 
+    void explicitArgs(json::Object &o, llvm::ArrayRef<TemplateArgumentLoc> args) {
+        json::Array a; bool any = false;
+        for (auto &al : args) {
+            const TemplateArgument &ta = al.getArgument();
+            if (ta.getKind() == TemplateArgument::Expression && ta.getAsExpr() && !ta.getAsExpr()->isValueDependent()) {
+                Expr::EvalResult r;
+                if (ta.getAsExpr()->EvaluateAsInt(r, Ctx, Expr::SE_NoSideEffects)) { a.push_back(r.Val.getInt().getExtValue()); any = true; continue; }
+            }
+            if (ta.getKind() == TemplateArgument::Integral) { a.push_back(ta.getAsIntegral().getExtValue()); any = true; continue; }
+            a.push_back(nullptr);
+        }
+        if (any) o["eta"] = std::move(a);
+    }
+
     void declRefInfo(json::Object &o, const ValueDecl *d) {
         o["n"] = nameOf(d);
         o["q"] = qnameOf(d);
@@ -234,17 +248,21 @@ public:
             addValue(o, e);
         } else if (auto *e = dyn_cast<CXXDependentScopeMemberExpr>(s)) {
             o["n"] = e->getMember().getAsString();
+            if (e->hasExplicitTemplateArgs()) explicitArgs(o, e->template_arguments());
             if (e->isArrow()) o["arrow"] = 1;
             if (!e->isImplicitAccess()) kids.push_back(child(st, e->getBase()));
             else { json::Object t; t["k"] = "CXXThisExpr"; t["implicit"] = 1; kids.push_back(std::move(t)); }
         } else if (auto *e = dyn_cast<UnresolvedMemberExpr>(s)) {
             o["n"] = e->getMemberName().getAsString();
+            if (e->hasExplicitTemplateArgs()) explicitArgs(o, e->template_arguments());
             if (!e->isImplicitAccess()) kids.push_back(child(st, e->getBase()));
             else { json::Object t; t["k"] = "CXXThisExpr"; t["implicit"] = 1; kids.push_back(std::move(t)); }
         } else if (auto *e = dyn_cast<UnresolvedLookupExpr>(s)) {
             o["n"] = e->getName().getAsString();
+            if (e->hasExplicitTemplateArgs()) explicitArgs(o, e->template_arguments());
             if (e->getQualifier()) { std::string q; llvm::raw_string_ostream qs(q); e->getQualifier()->print(qs, PP); o["qual"] = trunc(qs.str()); }
         } else if (auto *e = dyn_cast<DependentScopeDeclRefExpr>(s)) {
+            if (e->hasExplicitTemplateArgs()) explicitArgs(o, e->template_arguments());
             o["n"] = e->getDeclName().getAsString();
             if (e->getQualifier()) { std::string q; llvm::raw_string_ostream qs(q); e->getQualifier()->print(qs, PP); o["qual"] = trunc(qs.str()); }
         } else if (auto *e = dyn_cast<CXXOperatorCallExpr>(s)) {
